@@ -10,7 +10,8 @@ CLAIMS = {
          "Kani/CBMC proofs, complete over all 2^64 words, addresses and saved bytes, of the real INT3 patch primitive "
          "Breakpoint::enable / Breakpoint::disable: exactly the breakpoint address is peeked and poked, only the low byte changes, "
          "the original byte is saved, disable after enable restores the word (no patched byte remains), the saved byte survives "
-         "re-arming (step-over), and a failed ptrace call leaves memory and flags unchanged. Scope: the patch primitive only; that "
+         "re-arming (step-over), a failed ptrace call leaves memory and flags unchanged, and replacing a breakpoint at an already "
+         "patched address (add_and_enable) disables the old one first so the new one saves the ORIGINAL byte. Scope: the patch primitive only; that "
          "temporary breakpoints are removed, that all breakpoints are disabled on exit/detach, and that the debuggee's output is "
          "unchanged are whole-history statements outside this family's reach.",
          "nix::sys::ptrace::read/write replaced by a one-word memory model (stub); ptrace/kernel semantics assumed.",
@@ -19,9 +20,11 @@ CLAIMS = {
          "Verus proofs, for every sorted line table of any length, of the real line-table lookups extracted mechanically each run: "
          "find_place_by_idx, find_place_by_pc (a row of the greatest address <= pc), find_exact_place_by_pc (lowest index with that "
          "address, Some iff present), find_eb, find_lines_for_range, PlaceDescriptor::from/next/prev, the LineRow flag accessors, the "
-         "prologue walk of prolog_end_place (first prologue_end row at or after the function's first row) and the index arithmetic of "
-         "find_function_by_pc. Scope: pc->row and function->row answers over the parsed tables; line->rows (find_closest_place), DWARF "
-         "decoding and the comparison with an independent reader are not covered.",
+         "prologue walk of prolog_end_place (first prologue_end row at or after the function's first row), the index arithmetic of "
+         "find_function_by_pc, the per-unit row selection of find_closest_place (every place chosen for file:line is a statement row "
+         "of that line from the file's row list) and parse_lines (the table holds exactly the rows of the DWARF line program, in "
+         "order, with the attributes in the right flag bits; Kani: all 16 attribute combinations round-trip through the accessors). Scope: answers over the parsed tables; the outer loops of find_closest_place (file index, line+1 fallback, one per "
+         "subprogram), DWARF decoding by gimli and the comparison with an independent reader are not covered.",
          "std binary_search_by_key / From conversions outlined with assumed contracts; `lines`/`fn_ranges` sorted is a precondition "
          "(std sort in the parser); PlaceDescriptor.file lookup dropped; prolog_start_place (gimli) external.",
          "Verus contracts on mechanically extracted real functions", "2/C04"),
@@ -36,7 +39,9 @@ CLAIMS = {
          "Kani/CBMC proofs over all 2^128 control groups that the hashbrown group scan marks exactly the FULL buckets and that the "
          "bit iteration reports each set bit once, ascending; Verus proofs (unbounded) that guard_len/guard_cap clamp at 10 000 and "
          "that the VecDeque ring split of parse_vec_dequeue_inner yields exactly len indices, the i-th being (head+i) mod capacity. "
-         "Scope: these decoders' arithmetic; type-graph driven parsing, bucket addresses, B-trees, strings and rendering are not covered.",
+         "Also Verus: the hashbrown BucketIterator never loads a control group at or beyond the end of the control bytes and keeps "
+         "its data pointer in step with the control pointer; the B-tree next_leaf_edge/first_leaf_edge reach the leftmost leaf of the "
+         "right subtree (std's successor rule). Scope: these decoders' arithmetic; type-graph driven parsing, strings and rendering are not covered.",
          "hashbrown/VecDeque layout facts (EMPTY/DELETED top bit; to_physical_idx) are the oracle; R_init len <= cap and cap = real "
          "capacity are recorded preconditions.",
          "Kani full-domain proofs + Verus proof of an extracted statement fragment", "2/C06"),
@@ -50,7 +55,8 @@ CLAIMS = {
          "Panic-freedom (overflow, index, unwrap, slice/drain bounds) of a fixed list of real functions on the property's mechanism "
          "list, proved by Verus for all inputs with no precondition on user- or debuggee-controlled values except those recorded: "
          "ArrayValue::slice, find_exact_place_by_pc/prev/next and the other line-table lookups, read_memory_by_pid, write_bytes, the "
-         "disassembly breakpoint mask, the VecDeque ring split, find_function_by_pc index arithmetic. Scope: only the listed "
+         "disassembly breakpoint mask, the VecDeque ring split and element ranges, the pointer-slice arithmetic, the DAP memory-reference "
+         "arithmetic, find_function_by_pc index arithmetic; bounded (Kani, string length) for the numeric conversion closures of the command grammar. Scope: only the listed "
          "functions; the console/DAP loops, parsers, hangs and allocation failure are not covered.",
          "overflow checked with debug-build (panic) semantics; outlined std calls carry std's documented panic condition as requires; "
          "recorded preconditions: read_n <= isize::MAX, addr <= i64::MAX (DAP path), len <= cap for the deque ring.",
@@ -66,7 +72,8 @@ CLAIMS = {
          "(dr_enabled, configure_bp, set_dr, detect_and_flush, BreakSize::try_from) against the Intel SDM layout, and of "
          "HardwareBreakpoint::enable/disable/address_already_observed and WatchpointRegistry::distribute_to_tracee on a "
          "one-thread debug-register image model: least free slot, frame of the other slots, refusal of a fifth without any write, "
-         "no stale LE bit, enable/disable round trip, image pushed to a new thread. Scope: the register encoding and slot "
+         "no stale LE bit, enable/disable round trip, image pushed to a new thread; plus (statement fragments) DR6 hit detection at a "
+         "trap, the registry recording the image after a restart refresh, and the reference count of the end-of-scope breakpoint. Scope: the register encoding and slot "
          "allocation kernel, not the kernel/hardware behaviour, scope-exit removal or restart survival.",
          "HardwareDebugState::current/sync replaced by a static register image (stub); TraceeCtl thread map empty (std HashMap "
          "iteration is outside CBMC's reach) so the per-thread fan-out loop is unverified; Intel SDM semantics assumed.",
@@ -75,14 +82,17 @@ CLAIMS = {
          "Verus proofs (unbounded: any address, length, alignment) that the real read_memory_by_pid returns exactly m[addr..addr+n] and "
          "that the real write_bytes changes exactly [addr, addr+n) to the given bytes and nothing else, also on error; that the "
          "disassembly mask shows the original byte for every breakpoint inside the function and touches nothing else; Kani proofs that "
-         "RegisterMap::update/value have the full 27-register frame and that the kernel-struct conversions are mutually inverse.",
+         "RegisterMap::update/value have the full 27-register frame, that the kernel-struct conversions are mutually inverse and that "
+         "Tracee::set_pc changes rip only and is visible to a following read.",
          "ptrace PEEK/POKE replaced by the ghost byte-map model; size_of/min/max/copy_from_slice/from_le_bytes outlined with std contracts; "
          "filter+for_each composition of the mask is assumed.",
          "Verus contracts on extracted real functions over a ghost memory model + Kani register proofs", "2/C15"),
  "C16": ("proof",
          "Kani/CBMC proofs that the real get_reg_for_no places argument n in the n-th SysV integer register and that "
          "CallArgs::prepare_registers writes exactly the arguments, in order, leaving all other registers unchanged (any argument count "
-         "0..6, all values). Scope: argument placement; literal conversion, mmap/jump sequencing, exactly-once execution and state "
+         "0..6, all values); the trampoline word is `call *%rax; int3`, the jump patch `jmp *%rax` keeps the other six code bytes, "
+         "the register set-up leaves everything but rax/rip/argument registers as saved, and retrieve_original_state writes back "
+         "exactly the saved register file and code word. Scope: argument placement, trampoline encoding and restore; literal conversion, mmap/jump sequencing, exactly-once execution and state "
          "restore through ptrace are not covered.",
          "psABI 3.2.3 register order typed into the harness as oracle.",
          "Kani proofs on the real crate, full-domain symbolic values", "2/C16"),
@@ -100,13 +110,22 @@ CLAIMS = {
          "block, shadowing, location lists and frame selection are not covered.",
          "psABI Fig. 3.36 typed into the harness as oracle.",
          "Kani proofs on the real crate, full-domain symbolic inputs", "2/C19+C05"),
+ "C10": ("proof",
+         "Kani/CBMC proofs over all 31 signals that the quiet and transparent tables are exactly the sets of the property statement and "
+         "that the signal-stop arm of apply_new_status queues every signal but SIGINT exactly once, at the back, with its thread, reports "
+         "the stop with that thread and requests a group stop iff the signal is not quiet; Verus proof (any queue length) that "
+         "Tracer::resume never loses or duplicates a queued signal: delivered ++ queue only ever grows at its end, one signal is "
+         "injected per resume and the debuggee is re-stopped with the next one while more are pending. Scope: the queue discipline of "
+         "these functions; signals inside single_step, multi-thread interleavings and the kernel's delivery are not covered.",
+         "cont_stopped_ex/cont_stopped/apply_new_status/waitpid are assumed contracts (HashMap iteration, ptrace); recorded "
+         "precondition: the queued threads are pairwise distinct (a thread in signal-delivery-stop cannot stop again before it is resumed).",
+         "Kani full-domain proofs + Verus modular proof with ghost delivery history on the extracted real function", "4.1/C10"),
 }
 
 NA = {
  "C01": "stops are a relation between another process's execution trace and waitpid events; only the INT3 patch primitive is contractable and is proved under C02",
  "C03": "step semantics are defined relative to the debuggee's real instruction trace and call depth; no function on the path has a postcondition expressible without the debuggee's execution semantics",
  "C09": "all-stop / exactly-once over thread interleavings is a kernel scheduling property; Kani has no concurrency, Verus would need permission types threaded through unchangeable code, and per-thread state lives in a std HashMap (out of CBMC's reach)",
- "C10": "whole-history accounting of signals over waitpid events and PTRACE_CONT injections through &self; the queue kernel needs std HashMap/HashSet iteration with closures that neither tool reaches",
  "C11": "statements about the process table, PTRACE_DETACH, SIGKILL/reaping and process re-creation: every step is a system call",
  "C12": "message order depends on the interleaving of the session thread with two forwarder threads, and one-response-per-request spans 40 handlers over serde_json and a live debugger; no thread support in Kani, no reachable sequential kernel",
  "C17": "PathSearchIndex is std HashMap entry API + string_interner + str::split behind a global Mutex: in Verus every step would be an assumed contract, a rewrite would be a model, and a bounded Kani probe did not terminate (6 min / 2.8 GB)",
